@@ -589,3 +589,89 @@ func storesThroughAddr(info *types.Info, n ast.Node, dst types.Object) bool {
 	})
 	return found
 }
+
+// ---- C04.R4 an empty token is stored; only the nil token (null) is skipped ----
+
+// The scanners hand back nil for null and an empty non-nil slice for "" (or the empty number
+// text). A Decode method that leaves without storing must do so for the nil token only: the
+// encoder writes "" for an empty non-nil []byte/string and null for nil, so skipping the store
+// for an empty token turns an empty value into whatever the destination held (nil for a fresh one).
+func c04r4(rc *core.RC) {
+	p := rc.P
+	n := 0
+	for _, fd := range p.Funcs("decoder") {
+		if fd.Recv == nil || fd.Body == nil || (fd.Name.Name != "Decode" && fd.Name.Name != "DecodeStream") {
+			continue
+		}
+		info := p.Info(fd)
+		// []byte locals assigned from a call (the token)
+		tokens := map[types.Object]bool{}
+		ast.Inspect(fd.Body, func(m ast.Node) bool {
+			as, ok := m.(*ast.AssignStmt)
+			if !ok || len(as.Rhs) != 1 {
+				return true
+			}
+			if _, isCall := core.Unparen(as.Rhs[0]).(*ast.CallExpr); !isCall {
+				return true
+			}
+			for _, l := range as.Lhs {
+				if o := core.ObjOf(info, l); o != nil && o.Type().String() == "[]byte" {
+					tokens[o] = true
+				}
+			}
+			return true
+		})
+		if len(tokens) == 0 {
+			continue
+		}
+		fn := p.FuncName(fd)
+		for _, st := range fd.Body.List {
+			ifs, ok := st.(*ast.IfStmt)
+			if !ok {
+				continue
+			}
+			// body returns success
+			succ := false
+			for _, b := range ifs.Body.List {
+				if r, ok := b.(*ast.ReturnStmt); ok && len(r.Results) > 0 && core.IsNilIdent(info, r.Results[len(r.Results)-1]) {
+					succ = true
+				}
+			}
+			if !succ {
+				continue
+			}
+			// which token does the condition test, and how
+			var tok types.Object
+			nilCmp, lenCmp := false, false
+			ast.Inspect(ifs.Cond, func(k ast.Node) bool {
+				switch x := k.(type) {
+				case *ast.BinaryExpr:
+					if o := core.ObjOf(info, x.X); o != nil && tokens[o] && core.IsNilIdent(info, x.Y) && x.Op == token.EQL {
+						tok, nilCmp = o, true
+					}
+				case *ast.CallExpr:
+					if core.IsBuiltin(info, x, "len") && len(x.Args) == 1 {
+						if o := core.ObjOf(info, x.Args[0]); o != nil && tokens[o] {
+							tok, lenCmp = o, true
+						}
+					}
+				}
+				return true
+			})
+			if tok == nil {
+				continue
+			}
+			n++
+			rc.Touch(fn)
+			key := fn + "/skip-store only-for-nil " + tok.Name()
+			if lenCmp {
+				rc.Bad(key, ifs.Pos(), "the method returns without storing when `%s`: that is also true for the empty token of \"\", so an empty value is not stored (a fresh destination stays nil where the encoder wrote an empty non-nil value)", core.Src(p.Fset, ifs.Cond))
+			} else if nilCmp {
+				rc.OK(key, ifs.Pos(), "the store is skipped for the nil token (null) only")
+			}
+		}
+	}
+	if n < 6 {
+		rc.Unknown("decoder/token-nil-tests", token.NoPos, "found %d early returns on a scanned token", n)
+	}
+}
